@@ -34,9 +34,9 @@ class _SiteFraction:
 
 
 class _PhaseRecord:
-    def __init__(self, elements, variables):
+    def __init__(self, elements, variables, statevars=None):
         self.nonvacant_elements = list(elements)          # pycalphad: alphabetical
-        self.state_variables = [v.N, v.P, v.T]
+        self.state_variables = list(statevars) if statevars is not None else [v.N, v.P, v.T]
         self.variables = variables
 
 
@@ -96,7 +96,7 @@ def constitution(elements, va_on_interstitial=True):
     return vs
 
 
-def mk_compset(ctx, elements, tag="", va_on_interstitial=True, X=None, T=None):
+def mk_compset(ctx, elements, tag="", va_on_interstitial=True, X=None, T=None, statevars=None):
     """composition set with symbolic mole fractions X (alphabetical, all > 0), temperature and site fractions"""
     elements = sorted(elements)
     n = len(elements)
@@ -109,8 +109,10 @@ def mk_compset(ctx, elements, tag="", va_on_interstitial=True, X=None, T=None):
         ctx.assume(T > 0, "temperature is positive")
     vs = constitution(elements, va_on_interstitial)
     y = ctx.reals(tag + "y", len(vs), (0.05, 0.95))
-    dof = np.array([1.0, 101325.0, T] + [y[i] for i in range(len(vs))])
-    return _CompositionSet(_PhaseRecord(elements, vs), X, dof), elements, X, T, y
+    sv = {"GE": 0.0, "N": 1.0, "P": 101325.0, "T": T}
+    head = [1.0, 101325.0, T] if statevars is None else [sv[str(q)] for q in statevars]
+    dof = np.array(head + [y[i] for i in range(len(vs))])
+    return _CompositionSet(_PhaseRecord(elements, vs, statevars), X, dof), elements, X, T, y
 
 
 def mk_callables(ctx, elements, positive=False, tag=""):
@@ -409,6 +411,87 @@ def phase_arg(ctx, system="bin", order=(0, 1), entry="array", first_has_mobility
                   ctx.eq(Dn2[0, 0], (xA * Dt[1] + xB * Dt[0]) * (xB / (GAS_CONSTANT * T) * dmuB)))
 
 
+def user_functions(ctx, system="bin", order=(0, 1), kind="mobility", form="dict", corr=False):
+    """user-supplied temperature functions (setMobility / setDiffusivity: one function per element in a dictionary, one
+    function for all elements, or a single element replaced afterwards): every element's tracer diffusivity is built from
+    ITS OWN function -- R*T*M_e(T) for mobilities, D_e(T) for diffusivities (times the correction factor) -- in the user's
+    element order, and the interdiffusivity is built from the same per-element functions"""
+    names = sorted(_SYSTEMS[system])
+    user = [names[i] for i in order]
+    n = len(user)
+    ph = "FCC_A1"
+    th = object.__new__(GeneralThermodynamics)
+    th.elements = list(user) + ["VA"]; th.numElements = n; th.phases = [ph, "P2"]
+    th._diffusivity_cache = {}; th._parameters = {}; th.vacancyPoorInterstitialSublattice = {}
+    th.mobCallables = {ph: None, "P2": None}; th.diffCallables = {ph: None, "P2": None}
+    cf = {e: (ctx.real("corr_" + e, (0.5, 2.0)) if corr else 1) for e in th.elements}
+    th.mobility_correction = dict(cf)
+    T = ctx.real("T", (500.0, 1500.0)); ctx.assume(T > 0)
+    x = ctx.reals("x", n - 1, (0.05, 0.3))
+    for k in range(n - 1):
+        ctx.assume(x[k] > 0)
+    ctx.assume(sum(x) < 1)
+    seen = []
+
+    def userfn(tag):
+        def f(temp):
+            seen.append(temp)
+            return ctx.uf("user_" + tag, sc(temp), rng=(0.1, 2.0))
+        return f
+    fns = {e: userfn(e) for e in user}                       # dictionary in the user's element order
+    setter = th.setMobility if kind == "mobility" else th.setDiffusivity
+    if form == "dict":
+        setter(dict(fns), ph)
+        own = {e: "user_" + e for e in user}
+    elif form == "single":
+        setter(userfn("all"), ph)
+        own = {e: "user_all" for e in user}
+    else:                                                    # dictionary first, then one element replaced
+        setter(dict(fns), ph)
+        el = user[-1] if form == "element_last" else user[0]
+        setter({e: userfn("new_" + e) for e in user}, ph, element=el)
+        own = {e: ("user_new_" + e if e == el else "user_" + e) for e in user}
+    stored = th.mobCallables[ph] if kind == "mobility" else th.diffCallables[ph]
+    ctx.prove("one callable per element", sorted(stored.keys()) == sorted(user))
+    comp = {user[0]: 1 - sum(x)}
+    for e, q in zip(user[1:], x):
+        comp[e] = q
+    made = []
+
+    def getLocalEq(x_, T_, gExtra=0, precPhase=None, composition_sets=None):
+        if not made:
+            cs, _, _, _, _ = mk_compset(ctx, names, tag="eq_", X=np.array([comp[e] for e in names]), T=sc(T_),
+                                        statevars=GeneralThermodynamics.stateVariables)
+            made.append((_EqResult(ctx.reals("mu", n, (-1.0, 1.0))), [cs]))
+        return made[0]
+    th.getLocalEq = getLocalEq
+    xarg = x if n > 2 else x[0]
+    val = {e: ctx.uf(own[e], T, rng=(0.1, 2.0)) for e in user}       # the element's own function at the temperature
+    with hessian_stub(ctx, n) as (P, H):
+        Dt = th._tracerDiffusivitySingle(xarg, T, True, None)
+        Dn = th._interdiffusivitySingle(xarg, T, True, None)
+        ctx.observe("Dtracer", Dt); ctx.observe("Dn", [sc(q) for q in _np.ravel(_np.asarray(Dn, dtype=object))])
+        Dn2 = _np.asarray(Dn, dtype=object).reshape(n - 1, n - 1)
+        ctx.assume(det(Dn2) != 0, "interdiffusivity matrix non-singular (kawin inverts it on the way)")
+        ctx.prove("user functions are evaluated at the temperature of the state point", len(seen) > 0 and all(same_t is T or bool(sc(same_t) == T) for same_t in seen))
+        for i, e in enumerate(user):
+            want = GAS_CONSTANT * T * (cf[e] * val[e]) if kind == "mobility" else cf[e] * val[e]
+            ctx.prove("tracer diffusivity of each element is built from that element's own user function", ctx.eq(Dt[i], want))
+        cs = made[0][1][0]
+        if kind == "mobility":
+            ref_calls = {e: (lambda dof, e=e: val[e]) for e in user}
+            D, _ = chemical_diffusivity(None, cs, ref_calls, mobility_correction=dict(cf), parameters={})
+    r = names.index(user[0])
+    for i, ei in enumerate(user[1:]):
+        for j, ej in enumerate(user[1:]):
+            if kind == "mobility":
+                a, b = names.index(ei), names.index(ej)
+                want = D[a, b] - D[a, r]
+            else:
+                want = cf[ei] * val[ei] if i == j else 0.0 * T
+            ctx.prove("interdiffusivity is built from each element's own user function", ctx.eq(Dn2[i, j], want, atol=1e-12))
+
+
 def reorder(ctx, system="tern", order=(0, 1, 2), vacancy_poor=False):
     """GeneralThermodynamics._interdiffusivitySingle hands back D^n with rows/columns in the user's solute order, the
     user's first element as reference, whatever the alphabetical position of the elements"""
@@ -499,6 +582,23 @@ HARNESSES = [
                     "thorough": [{"system": s, "order": list(o), "entry": en, "first_has_mobility": fm, "corr": c}
                                  for s, os_ in (("bin", ((0, 1), (1, 0))), ("tern", _perm3)) for o in os_ for en in ("array", "single")
                                  for fm in (True, False) for c in (False, True)]}),
+    Harness("C10.user_functions", user_functions,
+            functions=_F + [GeneralThermodynamics.setMobility, GeneralThermodynamics.setDiffusivity, MOB.tracer_diffusivity_from_diff,
+                            MOB.interdiffusivity_from_diff, MOB.inverseMobility_from_diffusivity] +
+                      [f for f in [getattr(GeneralThermodynamics, "_generateTdependentFunction", None)] if f is not None],
+            assumptions=_A + ["no interstitial components in the user-function harness"], bounds={"components": "2-3"}, opts={"inv_hook": _inv_cut},
+            stubs=_S + ["user mobility / diffusivity functions: uninterpreted functions of the temperature, one per element",
+                        "composition set with kawin's own state-variable layout [GE, N, P, T]",
+                        "np.linalg.inv inside inverseMobility*: unconstrained in the symbolic runs (product discarded)"],
+            params={"quick": [{"system": "bin", "order": [0, 1], "kind": "mobility", "form": "dict"},
+                              {"system": "bin", "order": [1, 0], "kind": "diffusivity", "form": "dict", "corr": True},
+                              {"system": "tern", "order": [2, 0, 1], "kind": "mobility", "form": "dict", "corr": True},
+                              {"system": "tern", "order": [1, 2, 0], "kind": "diffusivity", "form": "element_first"},
+                              {"system": "bin", "order": [1, 0], "kind": "mobility", "form": "element_last"},
+                              {"system": "tern", "order": [0, 2, 1], "kind": "mobility", "form": "single"}],
+                    "thorough": [{"system": s, "order": list(o), "kind": k, "form": f, "corr": c}
+                                 for s, os_ in (("bin", ((0, 1), (1, 0))), ("tern", _perm3)) for o in os_ for k in ("mobility", "diffusivity")
+                                 for f, c in (("dict", True), ("single", False), ("element_first", False), ("element_last", True))]}),
     Harness("C10.reorder", reorder, functions=_F, assumptions=_A, bounds={"components": "3-4"}, opts={"inv_hook": _inv_cut},
             stubs=_S + ["np.linalg.inv of the interdiffusivity matrix inside inverseMobility: unconstrained matrix in the symbolic runs (its product "
                         "is discarded by _interdiffusivitySingle); real inverse in concrete runs"],
